@@ -27,7 +27,8 @@ OPTS_SMALL = {"period": 2, "mrp": 1, "wdelay": 1, "inact": 2}
 OPTS_DEFAULT = {}                     # Appendix B: period 4, MaxRewardsPeriod 2, withdraw delay 6, inactivity wait 8
 # second table: forced settlement every period, a longer inactivity wait (so that a penalty can follow the release of a
 # withdrawal of the same validator while the finished record is still retained) and a rewards pool that runs dry
-OPTS_MRP1 = {"mrp": 1, "inact": 12, "pool": 1200}
+# ... and MaxStakes so small (60 stake units) that two delegations of 100 LU overflow a validator of 505 LU
+OPTS_MRP1 = {"mrp": 1, "inact": 12, "pool": 1200, "maxstake": 60}
 OPTS_EMPTY_POOL = {"pool": 0}
 
 PROPS = "FeesEqualRewards SubsidyFromPool PenaltyArrives ReleasedOnce RewardsNeverLost FailedActivationRefunded"
@@ -41,8 +42,13 @@ def cfg(consts, mode):
     return "INIT Init\nNEXT Next\nCONSTANTS\n%s\nCONSTRAINT Leaf\nCHECK_DEADLOCK FALSE\n" % c
 
 
-def tx(k, a="u1", b="u2", v="g1", x=0, p=1, f=0, c=0, r=0):
-    return dict(k=k, a=a, b=b, v=v, x=x, p=p, f=f, c=c, r=r)
+def tx(k, a="u1", b="u2", v="g1", x=0, p=1, f=0, c=0, r=0, g=0, z=""):
+    t = dict(k=k, a=a, b=b, v=v, x=x, p=p, f=f, c=c, r=r)
+    if g:
+        t["g"] = g
+    if z:
+        t["z"] = z
+    return t
 
 
 def blk(cb="g1", *txs):
@@ -73,7 +79,94 @@ def scenarios():
     # (the transfer with a gas limit near the block's goes first: it needs nearly the whole gas pool to start)
     s4 = [blk("g1", tx("widegas", a="u2", b="u1", x=3), tx("transfer", a="u2", b="u1", x=1), tx("withdraw", a="g3", v="g3", b="u3", x=100))] \
         + [blk("g1") for _ in range(2)] + [blk("g1", tx("transfer", a="u2", b="u1", x=2, p=2))] + [blk("g1") for _ in range(14)]
-    return [s1, s2, s3, s4]
+    # a validator with five delegators is penalised (inactivity: block 11, or 15 with the second table); two delegations
+    # of 100 LU to g2 (505 LU): with the second table's MaxStakes the second one overflows in the pending handler
+    # (no risk obligation: the 10 % penalty is then exactly one LU per stake unit, so every delegator is charged)
+    s5 = [blk("g1", tx("update", a="g3", v="g3", f=1, c=1000, r=0), tx("update", a="g2", v="g2", f=1))] + [blk("g1"), blk("g1")] \
+        + [blk("g1", *[tx("dadd", a=d, v="g3", x=100) for d in ("u1", "u2", "u3", "g1", "g2")]),
+           blk("g1", tx("dadd", a="u1", v="g2", x=100), tx("dadd", a="u2", v="g2", x=100))] + [blk("g1") for _ in range(11)]
+    return [s1, s2, s3, s4, s5, check_coverage_scenario()]
+
+
+def check_coverage_scenario():
+    """One transaction per check of staking/handler.go, delegation_handler.go and tx_converter.go that FAILS at that check
+    with everything before it passing (what each hit is recorded from the converter's log: handler_check_coverage)."""
+    b1 = blk("g1", tx("create", a="n1", v="n1", x=5, f=3),                               # accepted (House, no minimum self stake)
+             tx("create", a="n1", v="n1", x=15, f=3),                                   # a pending creation exists
+             tx("create", a="g2", v="g2", x=15, f=3),                                   # the validator exists
+             tx("create", a="n2", v="n2", x=15, f=3, z="op"))                           # operator is not the sender
+    b2 = blk("g1", tx("create", a="n2", v="n2", x=5, f=2),                               # below the minimum self stake
+             tx("create", a="n2", v="n2", x=2000, f=3),                                 # above MaxStakes
+             tx("create", a="n2", v="n2", x=15, f=3, z="pub"),                          # malformed main key
+             tx("create", a="n2", v="n2", x=15, f=3, g=150000),                         # not enough gas for a creation
+             tx("update", a="g1", v="g1"),                                              # nothing changes
+             tx("update", a="n2", v="n2", f=1),                                         # validator not found
+             tx("update", a="g3", v="g3", f=1, c=1000), tx("update", a="g2", v="g2", f=1))
+    b3 = blk("g1", tx("deposit", a="g1", v="g1", x=1000),                                # above MaxStakes
+             tx("deposit", a="u1", v="g2", x=15),                                       # not the operator
+             tx("withdraw", a="g3", v="g3", b="u1", x=15, z="norcpt"),                  # no recipient
+             tx("withdraw", a="g3", v="g3", b="u1", x=0),                               # no value
+             tx("withdraw", a="g3", v="g3", b="u1", x=2000),                            # more than the self stake
+             tx("badaction"), tx("garbage"))
+    b4 = blk("g1", tx("settle", a="n1", v="n1"),                                         # offline
+             tx("status", a="g2", v="g2", f=2),                                         # not a status
+             tx("deposit", a="g2", v="g2", x=15), tx("status", a="g2", v="g2", f=0),    # a pending transaction exists
+             tx("status", a="g1", v="g1", f=1),                                         # already in that status
+             tx("status", a="n1", v="n1", f=1),                                         # stake too low to go online
+             tx("dadd", a="u1", v="n2", x=15),                                          # validator not found
+             tx("dadd", a="u1", v="g1", x=15),                                          # does not accept delegations
+             tx("dadd", a="g2", v="g2", x=15),                                          # delegating to oneself
+             tx("dadd", a="u1", v="g2", x=5),                                           # below the minimum delegation
+             tx("dadd", a="u1", v="g2", x=2000))                                        # above MaxStakes
+    b5 = blk("g1", tx("dadd", a="u1", v="g2", x=15), tx("dadd", a="u1", v="g3", x=15),
+             tx("dadd", a="u1", v="n1", x=15),                                          # third validator of one delegator
+             *[tx("dadd", a=d, v="g2", x=15) for d in ("u2", "u3", "g1", "g3", "n1", "n2")])   # the seventh delegator of g2
+    b6 = blk("g1", tx("drain", a="n2", b="u1", x=1101000), tx("create", a="n2", v="n2", x=1500, f=3),   # cannot afford the stake
+             tx("drain", a="u3", b="u1", x=120005), tx("dadd", a="u3", v="g3", x=15),                   # cannot afford the delegation
+             tx("drain", a="n1", b="u1", x=120005), tx("deposit", a="n1", v="n1", x=15),                # cannot afford the deposit
+             tx("dsub", a="u1", v="n2", x=15),                                          # validator not found
+             tx("dsub", a="g2", v="g2", x=15),                                          # oneself
+             tx("dsub", a="g1", v="g3", x=15),                                          # no such delegation
+             tx("dsub", a="u1", v="g2", x=1000),                                        # more than delegated
+             tx("dsettle", a="u1", v="n2"), tx("dsettle", a="g1", v="g3"))              # not found / no such delegation
+    tail = [blk("g1") for _ in range(5)]                                                 # g3 is penalised and expelled at block 11
+    b12 = blk("g1", tx("status", a="g3", v="g3", f=1),                                   # expelled (status)
+              tx("dadd", a="u2", v="g3", x=15))                                         # expelled (delegation)
+    return [b1, b2, b3, b4, b5, b6] + tail + [b12] + [blk("g1") for _ in range(4)]
+
+
+# every check of the pending handlers and of the converter, by the message the converter logs
+HANDLER_CHECKS = {
+    "converter": ["tx decode failed", "unsupported action type", "not enough gas for validator creation"],
+    "create": ["authorization failed", "insufficient self staking", "stakes overflow", "invalidate mainPubKey",
+               "validator already exist", "insufficient balance for paying a deposit"],
+    "update": ["validator not found", "nothing happened"],
+    "deposit": ["authorization failed", "insufficient balance for paying a deposit", "stakes overflow"],
+    "withdraw": ["recipient required", "value is too low", "insufficient staking for withdraw"],
+    "settle": ["validator is offline"],
+    "status": ["invalidate status", "pending transaction exist", "validator has been expelled", "already in status",
+               "insufficient stake, can not online"],
+    "dadd": ["validator not found", "validator do not accept delegation", "validator has been expelled",
+             "can not apply delegation transaction to oneself", "delegation value too low", "insufficient balance for delegation",
+             "delegates to any new validator due to limit", "delegations from new delegator due to limit", "stakes overflow"],
+    "dsub": ["validator not found", "can not apply delegation transaction to oneself", "delegation to validator not exist",
+             "insufficient delegation balance for unbind"],
+    "dsettle": ["validator not found", "delegation to validator not exist"],
+}
+HANDLER_UNREACHABLE = ["invalidate master sign (SignatureRequired is false for every role from version 5 on)"]
+
+
+def handler_coverage(ctx, trace):
+    cov = ctx.cov.setdefault("handler_check_coverage", {})
+    for e in vlib.read_ndjson(trace):
+        if e.get("ev") == "Tx" and e.get("failed") and e.get("herr"):
+            k = e["k"] if e["k"] not in ("garbage", "badaction") else "converter"
+            if "gas for validator creation" in e["herr"] or e["herr"] == "tx decode failed":
+                k = "converter"
+            for chk in HANDLER_CHECKS.get(k, []):
+                if chk in e["herr"]:
+                    cov.setdefault("%s: %s" % (k, chk), 0)
+                    cov["%s: %s" % (k, chk)] += 1
 
 
 def nontrivial(h):
@@ -110,6 +203,7 @@ def judge1(ctx, behs, opts, name, expect=None):
     vlib.write_ndjson(bpath, behs)
     trace = ctx.path("trace_%s.ndjson" % name)
     info = ctx.drive("staking", trace, behaviours=bpath, opts=opts, timeout=2400)
+    handler_coverage(ctx, trace)
     ctx.cov["traces_validated_against_impl"] += len(behs)
     ctx.cov["evaluations"] += len(behs)
     ctx.cov["distinct_nontrivial"] += len({json.dumps(b, sort_keys=True) for b in behs if nontrivial(b)})
@@ -216,6 +310,13 @@ def run(ctx):
                               "RewardsNeverLost", "FailedActivationRefunded", "Settlements") if not fired.get(k))
     if idle:
         raise vlib.Undecided("monitor clauses never fired (vacuous run): %s" % ", ".join(idle))
+    want = ["%s: %s" % (k, c) for k, cs in HANDLER_CHECKS.items() for c in cs]
+    missing = [w for w in want if not ctx.cov.get("handler_check_coverage", {}).get(w)]
+    ctx.cov["handler_checks_total"] = len(want)
+    ctx.cov["handler_checks_never_failed_at"] = missing
+    ctx.cov["handler_checks_unreachable"] = HANDLER_UNREACHABLE
+    if missing:
+        raise vlib.Undecided("no generated transaction failed at these handler checks: %s" % "; ".join(missing))
     for t in small_traces:
         conformance(ctx, t)
     if not quick:
